@@ -38,7 +38,7 @@ ASSUMPTIONS = [
     "against an http(s) page: strip leading C0/space, drop tab/LF/CR, `scheme:` prefix, two leading slash-or-backslash characters",
 ]
 RULE = ("request targets built from leading '/', '//', '/\\\\', '\\\\\\\\', '%2f', scheme and host-like segments, dot segments, trailing slashes and "
-        "queries, sent as GET/HEAD/POST through catch-all patterns to handlers decorated with removeslash/addslash/authenticated and to a "
+        "queries (and, in a separate stream, whitespace/control characters), sent as GET/HEAD/POST over HTTP/1.1 or 1.0 with an ordinary or hostile Host through catch-all patterns to handlers decorated with removeslash/addslash/authenticated and to a "
         "StaticFileHandler with default_filename; non-trivial = the response is a redirect or a refusal caused by the redirect guard; distinct by canonical JSON")
 EXHAUSTIVE = {"quick": False, "thorough": False}
 CLAUSE_CAVEATS = [
@@ -148,6 +148,10 @@ def gen_cases(rng, tier):
         if kind == "static":
             c["method"] = "GET" if c["method"] == "POST" else c["method"]
             c["default"] = rng.choice(["index.html", "index.html", "index.html", None])
+        if kind != "auth" and rng.random() < 0.2:      # a hostile Host must not matter: the Location is a path
+            c["host"] = rng.choice(["evil.example", "evil.example:8080", "h.example:8080", "[::1]"])
+        if rng.random() < 0.1:
+            c["version"] = "1.0"
         yield c
 
 
@@ -229,7 +233,7 @@ def run_impl(case):
         app = web.Application([(case["pat"], _handlers()[kind])], login_url=case["login"])
     else:
         app = web.Application([(case["pat"], _handlers()[kind])])
-    raw = ("%s %s HTTP/1.1\r\n" % (case["method"], case["target"])).encode("latin1")
+    raw = ("%s %s HTTP/%s\r\n" % (case["method"], case["target"], case.get("version", "1.1"))).encode("latin1")
     raw += b"Host: " + case.get("host", "h.example").encode() + b"\r\n"
     if case.get("user"):
         raw += b"X-User: bob\r\n"
@@ -327,7 +331,7 @@ def _tclass(t):
 
 
 def stats(case, impl):
-    return ["kind:" + case["kind"], "pat:" + case["pat"], "method:" + case["method"], "status:%d" % impl["status"],
+    return ["kind:" + case["kind"], "pat:" + case["pat"], "version:" + case.get("version", "1.1"), "host:" + ("default" if "host" not in case else "given"), "method:" + case["method"], "status:%d" % impl["status"],
             "target:" + _tclass(case["target"]), "%s:%d" % (case["kind"], impl["status"])]
 
 
